@@ -192,11 +192,12 @@ def g1(E, k, d=None):
     return next(iter(v)) if v is not TOP and v is not None and len(v) == 1 else d
 
 
-def hop_sites(db, rep):
+def hop_sites(db, rep, cap=2):
     prog = db.program('qmail-smtpd')
     blast = prog.fn('blast', 'qmail-smtpd.c')
     H = HopHooks()
-    eng = Engine(db, prog, H, max_states=2000000)
+    H.CAP = cap
+    eng = Engine(db, prog, H, max_states=6000000)
     fid = eng.frame_id(blast)
     eng.run(blast, {'%s::%s' % (fid, blast.params[0]): fs(('&', 'HOPS'))})
     rep.count_states(eng.states, eng.transitions)
@@ -267,7 +268,7 @@ def run(ctx):
 
     # ---- nothing but the documented limits refuses a well-framed message
     r3 = rep.rule('C05.3-no-false-refusal', 'R-TRANSDUCER', 'a correctly framed message is stored unless it reaches the documented limits: the hop counter counts exactly the header lines beginning with received/delivered (header ends at the first empty line); the size countdown refuses from stored byte databytes+1')
-    hs, nst = hop_sites(db, rep)
+    hs, nst = hop_sites(db, rep, cap=ctx.deep(2, 3))
     for inst, v in sorted(hs.items()):
         r3.check(v[0], inst, v[1], v[2], v[3])
     from rules import C07
